@@ -45,9 +45,46 @@ def case_of(pid, body, gc="default"):
     return {"id": pid, "main": yprog.program_src(body), "gc": gc, "modules": {}, "natives": True}
 
 
-def impl_run(binary, progs, gc="default", modules=None, timeout=30):
+BASE_ID = "__heap_baseline__"
+HEAP_KINDS = {"core::cell::RefCell<yarel::object::ObjVec>": "vec", "yarel::object::ObjTuple": "tuple",
+              "core::cell::RefCell<yarel::object::ObjHashMap>": "map", "core::cell::RefCell<yarel::object::ObjInstance>": "inst",
+              "yarel::object::ObjRange": "range", "core::cell::RefCell<yarel::object::ObjFiber>": "fiber",
+              "core::cell::RefCell<yarel::object::ObjBoundMethod<yarel::object::ObjClosure>>": "boundclo",
+              "core::cell::RefCell<yarel::object::ObjBoundMethod<yarel::object::ObjNative>>": "boundnat",
+              "core::cell::RefCell<yarel::object::ObjVecIter>": "veciter", "core::cell::RefCell<yarel::object::ObjTupleIter>": "tupleiter",
+              "core::cell::RefCell<yarel::object::ObjRangeIter>": "rangeiter"}
+
+
+def impl_run(binary, progs, gc="default", modules=None, timeout=30, heap=True):
+    """heap: after the last run of every case a collection is forced and the surviving objects are counted by type
+    (memory::verif_heap_stats); an empty program run the same way is the baseline (the interpreter's own objects)."""
     cases = [case_of(item[0], item[1], gc) for item in progs]
+    if heap:
+        cases = [dict(c, stats=True) for c in cases] + [{"id": BASE_ID, "main": "", "gc": gc, "modules": {}, "natives": True, "stats": True}]
     return {c["id"]: r for c, r in zip(cases, vlib.Pool(binary, "run", timeout=timeout).map(cases))}
+
+
+def live_counts(reply):
+    out = dict.fromkeys(HEAP_KINDS.values(), 0)
+    for t, n in reply["stats"]["by_type"]:
+        t = t.replace("std::cell::RefCell", "core::cell::RefCell")
+        if t in HEAP_KINDS:
+            out[HEAP_KINDS[t]] += n
+    return out
+
+
+def compare_heap(model, impl, base):
+    """Live(m) of Machine.tla against the real heap after a forced collection: the objects the program created that survive are
+    exactly the reachable ones, kind by kind (C16: garbage goes; C01: nothing reachable goes).  -> None or a description"""
+    h = model.get("heap")
+    if not h or not h.get("exact") or "stats" not in impl or base is None or "stats" not in base:
+        return None
+    got, b0 = live_counts(impl), live_counts(base)
+    diff = {k: (h[k], got[k] - b0[k]) for k in got if k in h and got[k] - b0[k] != h[k]}
+    if diff:
+        return ("objects alive after the last run and a full collection differ from the reachable set of the specification "
+                "(kind: (spec, impl)): %r" % (diff,))
+    return None
 
 
 def compare(model, impl):
